@@ -24,7 +24,7 @@ RULE = ("per-run seed -> storage configuration (simulated FileStorage with mmap 
 ASSUMPTIONS = ["one searcher per simulated thread, as the documentation requires",
                "a reader opened over [a,b] may legitimately see any generation between the last commit that returned before a and the last TOC rename issued before b",
                "probes read every stored field, posting, length, vector and column through the held reader (this is what touches lazily opened files)"]
-TIERS = {"quick": {"runs": 900, "time_budget": 100, "audit_every": 40},
+TIERS = {"quick": {"runs": 2400, "time_budget": 100, "audit_every": 60},
          "thorough": {"runs": 40000, "time_budget": 1500, "audit_every": 100}}
 
 
@@ -44,12 +44,18 @@ def generate(seed, tier):
     nwriters = 1 if mrng.random() < 0.7 else 2
     nreaders = mrng.randint(1, 3)
     merges = ("none", "none", "default", "optimize", "optimize", "clear", "custom")
+    # "churn" runs (30%): many tiny transactions that all replace segment files, against readers
+    # that mostly (re)open - the window between reading a TOC and opening the files it names
+    churn = mrng.random() < 0.3
+    if churn:
+        merges = ("optimize", "optimize", "clear", "custom", "default")
+        nreaders = mrng.randint(2, 3)
     actors = []
     for wi in range(nwriters):
         txs = []
-        for _ in range(mrng.randint(2, 5)):
+        for _ in range(mrng.randint(4, 8) if churn else mrng.randint(2, 5)):
             body = []
-            for _ in range(wrng.randint(1, 4)):
+            for _ in range(wrng.randint(1, 2) if churn else wrng.randint(1, 4)):
                 c = wrng.random()
                 if c < 0.6:
                     body.append(["add", dg.doc()])
@@ -65,14 +71,16 @@ def generate(seed, tier):
                 if m == "custom":
                     arg["mask"] = wrng.randrange(1, 256)
                 end = ["commit", arg]
-            txs.append({"timeout": 60.0, "delay": 0.05, "body": body, "end": end})
+            txs.append({"timeout": 60.0, "delay": wrng.choice((0.0, 0.01, 0.05)) if churn else 0.05, "body": body, "end": end})
         actors.append({"kind": "writer", "name": "W%d" % wi, "txs": txs,
                        "own_process": mrng.random() < 0.6})
     for ri in range(nreaders):
         ops = []
-        for _ in range(mrng.randint(3, 10)):
+        for _ in range(mrng.randint(8, 16) if churn else mrng.randint(3, 10)):
             c = wrng.random()
-            if c < 0.2:
+            if churn and c < 0.75:
+                ops.append([wrng.choice(("open", "open", "refresh", "probe", "close"))])
+            elif c < 0.2:
                 ops.append(["open"])
             elif c < 0.55:
                 ops.append(["probe"])
